@@ -133,6 +133,16 @@ Proof. exact (conj ex_ops_lens former_overflow_witness). Qed.
 Print Assumptions C19_history_capacity_nonvacuous.
 
 (* ------------------------------------------------------------------------------------------------------------- *)
+(* numpy primitives.  The correspondence check runs every primitive the model relies on against numpy itself and
+   evaluates (a) the list model and (b) an independent specification on numpy's output (Corr.prim_corr / prim_spec).
+   For the central one, the stable argsort, the model provably meets that specification (permutation of the index
+   range, keys ascending, equal keys by ascending index) for every array. *)
+Require Import QV.C19.Corr QV.C19.ProofsPrim.
+Theorem C19_argsort_model_meets_spec : forall a, prim_spec (PArgsort a (znat (argsort a))) = true.
+Proof. exact argsort_meets_spec. Qed.
+Print Assumptions C19_argsort_model_meets_spec.
+
+(* ------------------------------------------------------------------------------------------------------------- *)
 (* REMARK — NOT PART OF PROPERTY C19.  C19 is a safety property (a refusal is always safe).  The corresponding
    liveness statement "the placement refuses only if no safe placement exists" is false for the code as it is: the
    index mix-up in the second loop (position in the reversed unsorted free capacities used as position in the free
